@@ -11,8 +11,10 @@ import (
 	"verif/harness/gen"
 	"verif/harness/refstore"
 
+	"github.com/freeconf/yang/meta"
 	"github.com/freeconf/yang/node"
 	"github.com/freeconf/yang/nodeutil"
+	fcxml "github.com/freeconf/yang/patch/xml"
 )
 
 func init() { Registry["C19"] = C19 }
@@ -223,16 +225,219 @@ func c19interleave(r *core.Rng, e *c19elem) *c19elem {
 	return out
 }
 
+// ---- tokens for the Lean driver (flattened schema: choices have no representation in data)
+
+func c19schemaToks(sc *c15schema, kids []*gen.SNode) []string {
+	out := []string{fmt.Sprint(len(kids))}
+	for _, s := range kids {
+		ns := c19ns[sc.mod[s.Name]]
+		switch s.Kind {
+		case "leaf":
+			k := "L"
+			if sc.lists[s.Name] {
+				k = "A"
+			}
+			out = append(out, k, core.Hex(s.Name), core.Hex(ns))
+		case "cont":
+			out = append(append(out, "C", core.Hex(s.Name), core.Hex(ns)), c19schemaToks(sc, s.Kids)...)
+		case "list":
+			out = append(append(out, "K", core.Hex(s.Name), core.Hex(ns)), c19schemaToks(sc, s.Kids)...)
+		}
+	}
+	return out
+}
+
+// data with leaf values in their XML text
+func c19dataToks(sc *c15schema, kids []*gen.SNode, body []*gen.DNode) []string {
+	out := []string{fmt.Sprint(len(kids))}
+	for i, s := range kids {
+		d := body[i]
+		switch s.Kind {
+		case "leaf":
+			t := sc.types[s.Name]
+			if sc.lists[s.Name] {
+				if d.Leaf == nil {
+					out = append(out, "a", "0")
+				} else {
+					parts := strings.Split(*d.Leaf, "\x1e")
+					out = append(out, "a", fmt.Sprint(len(parts)))
+					for _, p := range parts {
+						out = append(out, core.Hex(c19leafText(t, p)))
+					}
+				}
+			} else if d.Leaf == nil {
+				out = append(out, "-")
+			} else {
+				out = append(out, "v", core.Hex(c19leafText(t, *d.Leaf)))
+			}
+		case "cont":
+			if d.Present {
+				out = append(append(out, "c"), c19dataToks(sc, s.Kids, d.Kids)...)
+			} else {
+				out = append(out, "c-")
+			}
+		case "list":
+			out = append(out, "r", fmt.Sprint(len(d.Rows)))
+			for _, row := range d.Rows {
+				out = append(out, c19dataToks(sc, s.Kids, row.Kids)...)
+			}
+		}
+	}
+	return out
+}
+
+func c19elemToks(es []*c19elem) []string {
+	out := []string{fmt.Sprint(len(es))}
+	for _, e := range es {
+		text := e.Text
+		if len(e.Kids) > 0 {
+			text = ""
+		}
+		out = append(append(out, "E", core.Hex(e.Name), core.Hex(e.NS), core.Hex(text)), c19elemToks(e.Kids)...)
+	}
+	return out
+}
+
+type c19tokReader struct {
+	toks []string
+	err  error
+}
+
+func (t *c19tokReader) next() string {
+	if len(t.toks) == 0 {
+		t.err = fmt.Errorf("short")
+		return ""
+	}
+	x := t.toks[0]
+	t.toks = t.toks[1:]
+	return x
+}
+
+// model's read result (XML texts) as a body of the flattened schema
+func (t *c19tokReader) body(sc *c15schema, kids []*gen.SNode) []*gen.DNode {
+	n, _ := strconv.Atoi(t.next())
+	if n != len(kids) {
+		t.err = fmt.Errorf("arity")
+		return nil
+	}
+	out := make([]*gen.DNode, len(kids))
+	for i, s := range kids {
+		d := &gen.DNode{}
+		out[i] = d
+		tag := t.next()
+		switch {
+		case s.Kind == "leaf" && tag == "-":
+		case s.Kind == "leaf" && tag == "v":
+			v := core.Unhex(t.next())
+			d.Leaf = &v
+		case s.Kind == "leaf" && tag == "a":
+			k, _ := strconv.Atoi(t.next())
+			var parts []string
+			for j := 0; j < k; j++ {
+				parts = append(parts, core.Unhex(t.next()))
+			}
+			if k > 0 {
+				v := strings.Join(parts, "\x1e")
+				d.Leaf = &v
+			}
+		case s.Kind == "cont" && tag == "c-":
+		case s.Kind == "cont" && tag == "c":
+			d.Present = true
+			d.Kids = t.body(sc, s.Kids)
+		case s.Kind == "list" && tag == "r":
+			k, _ := strconv.Atoi(t.next())
+			for j := 0; j < k; j++ {
+				row := &gen.DRow{Kids: t.body(sc, s.Kids)}
+				if len(row.Kids) > 0 && row.Kids[0] != nil && row.Kids[0].Leaf != nil {
+					row.Key = []string{*row.Kids[0].Leaf}
+				}
+				d.Rows = append(d.Rows, row)
+			}
+		default:
+			t.err = fmt.Errorf("tag %q for %s", tag, s.Kind)
+			return out
+		}
+		if t.err != nil {
+			return out
+		}
+	}
+	return out
+}
+
+// elements in a foreign namespace carrying names of real siblings: a reader must not take them for those nodes
+func c19addForeign(r *core.Rng, e *c19elem) *c19elem {
+	out := &c19elem{Name: e.Name, NS: e.NS, Text: e.Text}
+	for _, k := range e.Kids {
+		if r.Chance(25) {
+			f := &c19elem{Name: k.Name, NS: "urn:foreign", Text: "bogus"}
+			out.Kids = append(out.Kids, f)
+		}
+		out.Kids = append(out.Kids, c19addForeign(r, k))
+	}
+	return out
+}
+
+func c19stripNS(e *c19elem) *c19elem {
+	out := &c19elem{Name: e.Name, Text: e.Text}
+	for _, k := range e.Kids {
+		out.Kids = append(out.Kids, c19stripNS(k))
+	}
+	return out
+}
+
+func c19renderPlain(e *c19elem, b *strings.Builder) {
+	fmt.Fprintf(b, "<%s>", e.Name)
+	if len(e.Kids) == 0 {
+		stdxml.EscapeText(b, []byte(e.Text))
+	}
+	for _, k := range e.Kids {
+		c19renderPlain(k, b)
+	}
+	fmt.Fprintf(b, "</%s>", e.Name)
+}
+
 func C19(c *core.Ctx) {
-	c.Rule = "generated schemas (every built-in leaf type, leaf-lists, containers, keyed lists, nodes of an imported module's grouping, a leaf added by augment into that grouping's container) × conforming trees whose strings cover markup, quotes, CDATA terminators, leading/trailing/inner white space, tab/CR/LF, non-ASCII × writers {WriteXMLDoc compact, WriteXMLDoc pretty, WriteXML (streaming XMLWtr)}: (i) output parsed by encoding/xml in strict mode as one root element and compared with the expected element tree (names, namespaces, text), (ii) ReadXMLDoc + UpsertFrom into a fresh reference store compared with the original tree, (iii) the same after a random sibling interleaving that keeps the order of same-named elements. non-trivial = tree with ≥1 list entry or nested container; distinct by (schema, tree, writer, interleaving)"
+	c.Rule = "generated schemas (every built-in leaf type, leaf-lists, containers, keyed lists, choices, nodes of an imported module's grouping incl. an identityref, a leaf added by augment into that grouping's container) × conforming trees whose strings cover markup, quotes, CDATA terminators, leading/trailing/inner white space, tab/CR/LF, non-ASCII × writers {WriteXMLDoc compact, WriteXMLDoc pretty, WriteXML (streaming XMLWtr)}: (i) output parsed by encoding/xml in strict mode as one root element and compared with the expected element tree (names, namespaces, text), (ii) output compared byte for byte with the Lean writer models (tree / stream / pretty), (iii) ReadXMLDoc + UpsertFrom into a fresh reference store compared with the original tree and with the Lean reader model, as written and after a sibling interleaving that keeps the order of same-named elements, with same-named elements of a foreign namespace inserted, and with all namespaces dropped, (iv) patch/xml EscapeText against the Lean escaper on the string pool and random strings. non-trivial = tree with ≥1 list entry or nested container; distinct by (schema, tree, writer, variant)"
 	c.Assumptions = append(c.Assumptions,
 		"encoding/xml (Strict) of the Go standard library is the XML 1.0 well-formedness oracle on the byte level; the Lean theorems are on the token level plus the character-data codec",
-		"strings are drawn from the characters a YANG string may hold (RFC 7950 §9.4), which are the characters XML 1.0 can carry")
+		"strings are drawn from the characters a YANG string may hold (RFC 7950 §9.4), which are the characters XML 1.0 can carry",
+		"the text of a leaf of type empty is not constrained (it has no lexical form); the library writes the text of its internal marker")
+	c.ProofStep("YangVerif.Props.C19")
+	if c.Thorough() {
+		c.LeanChecker("YangVerif.Props.C19")
+	}
 	rng := core.NewRng(c.Seed)
 	saved := c15strings
 	c15strings = c19strings
 	defer func() { c15strings = saved }()
 	ts := c15types()
+	var lines []string
+	type pend struct {
+		kind, desc, impl string
+		input            map[string]interface{}
+		sc               *c15schema
+		m                *meta.Module
+		fkids            []*gen.SNode
+	}
+	var pends []pend
+	// (iv) character data
+	escCases := append([]string{}, c19strings...)
+	for i := 0; i < c.N(300, 20000); i++ {
+		n := rng.Intn(6)
+		var b strings.Builder
+		for j := 0; j < n; j++ {
+			b.WriteString(core.Pick(rng, []string{"<", ">", "&", "\"", "'", "]", "]]>", "\t", "\n", "\r", " ", "a", "é", " ", "\U0001F600", "&amp;", "&#10;", ";", "#"}))
+		}
+		escCases = append(escCases, b.String())
+	}
+	for _, s := range escCases {
+		var b strings.Builder
+		fcxml.EscapeText(&b, []byte(s))
+		lines = append(lines, "c19 esc "+core.Hex(s))
+		pends = append(pends, pend{kind: "esc", desc: "EscapeText", impl: core.Hex(b.String()) + " " + core.Hex(s), input: map[string]interface{}{"text": s}})
+		c.Evaluations++
+		c.Count("escape", "cases")
+	}
 	nSchemas := c.N(40, 1200)
 	for si := 0; si < nSchemas; si++ {
 		r := rng.Fork()
@@ -249,6 +454,10 @@ func C19(c *core.Ctx) {
 			c04canonBody(m, sc, sc.kids, tree, nil)
 			want := gen.Canon(sc.kids, tree, false)
 			wantElem := &c19elem{Name: "m", NS: "urn:m", Kids: c19expect(sc, sc.kids, tree)}
+			fkids, ftree := gen.Flatten(sc.kids, tree)
+			schemaToks := strings.Join(c19schemaToks(sc, fkids), " ")
+			dataToks := strings.Join(c19dataToks(sc, fkids, ftree), " ")
+			hasEmpty := strings.Contains(want, "<not empty>")
 			nontrivial := strings.Contains(want, "[") || strings.Count(want, "{") > 2
 			for _, writer := range []string{"doc-compact", "doc-pretty", "stream"} {
 				st := refstore.NewBody(nil, sc.kids, gen.Clone(tree), "")
@@ -287,11 +496,29 @@ func C19(c *core.Ctx) {
 						Summary: fmt.Sprintf("%s: document holds %s; the tree is %s", writer, short(parsed.String()), short(wantElem.String())), Input: input, Impl: parsed.String(), Spec: wantElem.String()})
 					continue
 				}
-				for _, variant := range []string{"as-written", "interleaved"} {
+				// (ii) bytes against the writer model (not where a leaf of type empty is set: its text is unconstrained)
+				if !hasEmpty {
+					mode := map[string]string{"doc-compact": "tree", "doc-pretty": "pretty", "stream": "stream"}[writer]
+					lines = append(lines, "c19 doc "+mode+" "+core.Hex("m")+" "+core.Hex("urn:m")+" "+schemaToks+" "+dataToks)
+					pends = append(pends, pend{kind: "doc", desc: writer + " bytes", impl: doc, input: input})
+				}
+				variants := []string{"as-written", "interleaved", "foreign-namespace-siblings", "no-namespaces"}
+				for _, variant := range variants {
 					text := doc
-					if variant == "interleaved" {
-						var b strings.Builder
-						c19render(c19interleave(r, parsed), &b)
+					var elems *c19elem = parsed
+					var b strings.Builder
+					switch variant {
+					case "interleaved":
+						elems = c19interleave(r, parsed)
+						c19render(elems, &b)
+						text = b.String()
+					case "foreign-namespace-siblings":
+						elems = c19interleave(r, c19addForeign(r, parsed))
+						c19render(elems, &b)
+						text = b.String()
+					case "no-namespaces":
+						elems = c19stripNS(c19interleave(r, parsed))
+						c19renderPlain(elems, &b)
 						text = b.String()
 					}
 					out := gen.EmptyBody(sc.kids)
@@ -306,13 +533,66 @@ func C19(c *core.Ctx) {
 					})
 					c.Evaluations++
 					c.Count("read", variant)
+					if nontrivial {
+						c.Distinct(fmt.Sprint(si, di, writer, variant))
+					}
 					got := errClass(rerr) + " " + gen.Canon(sc.kids, out, false)
+					in2 := map[string]interface{}{"yang": y, "tree": want, "writer": writer, "document": text, "variant": variant}
 					if got != "ok "+want {
-						in2 := map[string]interface{}{"yang": y, "tree": want, "writer": writer, "document": text, "variant": variant}
 						c.Violation(core.Replay{Kind: "property-failure", Class: "roundtrip-" + writer + "-" + variant,
 							Summary: fmt.Sprintf("%s/%s: read back %s; written %s", writer, variant, short(got), short("ok "+want)), Input: in2, Impl: got, Spec: "ok " + want})
+						continue
 					}
+					// the reader model on the same elements
+					lines = append(lines, "c19 read "+schemaToks+" "+strings.Join(c19elemToks(elems.Kids), " "))
+					pends = append(pends, pend{kind: "read", desc: writer + "/" + variant + " reader model", impl: got, input: in2, sc: sc, m: m, fkids: fkids})
 				}
+			}
+		}
+	}
+	outs, err := core.RunDriver(lines)
+	if err != nil {
+		c.ProofBroken = append(c.ProofBroken, err.Error())
+		return
+	}
+	for i, o := range outs {
+		p := pends[i]
+		switch p.kind {
+		case "esc":
+			if i%97 == 0 {
+				c.Sample(map[string]interface{}{"case": "escape", "text": p.input["text"], "library+decoded": p.impl, "model": o})
+			}
+			if o != p.impl {
+				parts := strings.Fields(o)
+				c.Violation(core.Replay{Kind: "property-failure", Class: "escape",
+					Summary: fmt.Sprintf("EscapeText(%q): library writes %q; model writes %q and an XML reader decodes that to %q", p.input["text"], core.Unhex(strings.Fields(p.impl)[0]), core.Unhex(parts[0]), core.Unhex(parts[len(parts)-1])),
+					Input:   p.input, Impl: p.impl, Model: o})
+			}
+		case "doc":
+			if !strings.HasPrefix(o, "ok ") {
+				c.Count("driver", "doc:"+short(o))
+				continue
+			}
+			md := core.Unhex(strings.TrimPrefix(o, "ok "))
+			if i%211 == 0 {
+				c.Sample(map[string]interface{}{"case": p.desc, "library": short(p.impl), "model": short(md)})
+			}
+			if md != p.impl {
+				c.Violation(core.Replay{Kind: "correspondence", Class: "bytes-" + strings.Fields(p.desc)[0],
+					Summary: fmt.Sprintf("%s: library writes %s; the writer model writes %s", p.desc, short(p.impl), short(md)), Input: p.input, Impl: p.impl, Model: md})
+			}
+		case "read":
+			tr := &c19tokReader{toks: strings.Fields(o)}
+			body := tr.body(p.sc, p.fkids)
+			if tr.err != nil || len(tr.toks) != 0 {
+				c.Count("driver", "read:"+short(o))
+				continue
+			}
+			c04canonBody(p.m, p.sc, p.fkids, body, nil)
+			mw := "ok " + gen.Canon(p.fkids, body, false)
+			if mw != p.impl {
+				c.Violation(core.Replay{Kind: "correspondence", Class: "reader-model",
+					Summary: fmt.Sprintf("%s: library reads %s; the reader model reads %s", p.desc, short(p.impl), short(mw)), Input: p.input, Impl: p.impl, Model: mw})
 			}
 		}
 	}
